@@ -51,6 +51,8 @@ containers included) is a run-time error (`none`). -/
 def updCell : Key → TVal → TVal → Option TVal
   | .field k, v, .map m => some (.map (upsert k v m))
   | .index i, v, .array xs => if i < xs.length then some (.array (xs.set i v)) else none
+  -- `Map.IndexSet` turns any index into a key with `ToString`: `m[0] = v` writes key "0"
+  | .index i, v, .map m => some (.map (upsert (toString i) v m))
   | _, _, _ => none
 
 inductive HOp where
